@@ -75,5 +75,5 @@ def run(rec, driver, rng, n):
             model_pieces = [bytes.fromhex(x) for x in m_p.split(",")] if m_p not in ("", "-") else []
             # the implementation's script runs out exactly where the model's does; the model's remaining buffer is what was never sent
             impl_rest = buf[len(sent):]
-            if model_pieces != pieces or bytes.fromhex(m_r) != impl_rest:
+            if model_pieces != pieces or (b"" if m_r in ("", "-") else bytes.fromhex(m_r)) != impl_rest:
                 rec.disagree("backend-write", {"buffer": buf.hex(), "sends": sends, "impl": [p.hex() for p in pieces], "model": a})
